@@ -114,7 +114,8 @@ OnCall ==
   /\ (E.n \in away => Verdict("C07", "call-after-cancel", <<E.n, E.op>>))
   \* shared tag: an earlier request of the same tag must have been answered before this one is executed
   /\ ((\E m \in 1..(E.n - 1) : /\ sent[m].tag = sent[E.n].tag /\ ~IsFlush(m) /\ ~IsFlush(E.n)
-                               /\ m \notin answeredN /\ m \notin away /\ replied[m] = 0)
+                               /\ m \in {called[k] : k \in 1..Len(called)}      \* handed to the implementation ...
+                               /\ m \notin answeredN /\ m \notin away /\ replied[m] = 0)  \* ... and still there
         => Verdict("C08", "taggroup-overlap", <<E.n, sent[E.n].tag>>))
   /\ called' = Append(called, E.n)
   \* only a call that shows a NEW fid makes it live (attach: fid; walk to a new fid: newfid); an
@@ -195,6 +196,11 @@ OnCrash ==   \* the server process panicked while serving this case: nothing out
   /\ Verdict("C03", "server-crash", E.what)
   /\ UNCHANGED <<sent, replied, away, answers, called, answeredN, live, maybe, nclosed, cclosed, dseen>>
 
+OnStall ==   \* the server never became quiescent: a goroutine waits for a lock another one holds across a schedule
+             \* point or an implementation call (or spins) -- requests are being delayed by an unrelated one
+  /\ Verdict("C08", "stalled", E.what)
+  /\ UNCHANGED <<sent, replied, away, answers, called, answeredN, live, maybe, nclosed, cclosed, dseen>>
+
 OnBystander ==   \* a request on another connection, driven with this connection's goroutines paused
   /\ (~E.ok => Verdict(IF cclosed THEN "C11" ELSE "C08", "bystander-disturbed", E.what))
   /\ UNCHANGED <<sent, replied, away, answers, called, answeredN, live, maybe, nclosed, cclosed, dseen>>
@@ -227,6 +233,7 @@ Next ==
                   [] E.ev = "crash" -> OnCrash
                   [] E.ev = "initfid" -> OnInitFid
                   [] E.ev = "bystander" -> OnBystander
+                  [] E.ev = "stall" -> OnStall
                   [] OTHER -> Skip
   \/ /\ i = Len(Ext) + 1 /\ ~done /\ done' = TRUE
      /\ PrintT(<<"CONSUMED", Len(Ext)>>)
